@@ -538,6 +538,18 @@ var AncestorLoop = errors.New("ancestor loop detected")
 
 // DoAncestors calls the given function on this location and all of its ancestors in depth-first order.
 func (loc *Location) DoAncestors(ctx *Context, fn func(*Location) error) error {
+	return loc.doAncestors(ctx, fn, make(map[string]bool))
+}
+
+// doAncestors does the work for DoAncestors.  The given path is the set
+// of locations on the way from the starting location to this one; it is
+// used to detect a chain of parents that leads back to itself.
+func (loc *Location) doAncestors(ctx *Context, fn func(*Location) error, path map[string]bool) error {
+	if path[loc.Name] {
+		return AncestorLoop
+	}
+	path[loc.Name] = true
+	defer delete(path, loc.Name)
 
 	parents, err := loc.getParents(ctx)
 	if err != nil {
@@ -569,7 +581,7 @@ func (loc *Location) DoAncestors(ctx *Context, fn func(*Location) error) error {
 			if err != nil {
 				return err
 			}
-			if err = p.DoAncestors(ctx, fn); err != nil {
+			if err = p.doAncestors(ctx, fn, path); err != nil {
 				return err
 			}
 		}
